@@ -12,7 +12,7 @@ import struct
 import sys
 
 sys.path.insert(0, os.path.join(os.path.dirname(os.path.abspath(__file__)), ".."))
-from framework import Check, drive  # noqa: E402
+from framework import Check, drive, hexs  # noqa: E402
 from lib import (BASE, C, pkt, com_stmt_execute, com_change_user, decode_resultset, parse_coldef, parse_eof, parse_ok, parse_err,
                  settle, Bad, T_LONG)  # noqa: E402
 from connharness import Driven, plan_token, rows_token  # noqa: E402
@@ -229,6 +229,75 @@ def canon(x):
     return x
 
 
+def reply_packets(chk, rng, n):
+    """byte level: make_ok / make_eof / make_error / make_column_definition_41 against Mimic.Reply, and every column
+    definition through the specification decoder (coldef_roundtrip)"""
+    from mysql_mimic import packets
+    from mysql_mimic.types import Capabilities as Cap, ServerStatus, ColumnType, ColumnDefinition
+    from mysql_mimic.charset import CharacterSet
+    from mysql_mimic.errors import ErrorCode, get_sqlstate
+    lines, impl, inputs = [], [], []
+    edge = [0, 1, 250, 251, 252, 255, 256, 65535, 65536, 2 ** 24 - 1, 2 ** 24, 2 ** 32, 2 ** 63, 2 ** 64 - 1]
+    codes = list(ErrorCode)
+    for _ in range(n):
+        k = rng.choice(["ok", "eof", "err", "coldef", "coldef", "coldef-fl"])
+        p41 = rng.random() < 0.85
+        caps = Cap(0)
+        if p41:
+            caps |= Cap.CLIENT_PROTOCOL_41
+        trans = rng.random() < 0.5
+        if trans:
+            caps |= Cap.CLIENT_TRANSACTIONS
+        if k == "ok":
+            a, l = rng.choice(edge), rng.choice(edge)
+            st, w, fl = rng.randrange(0, 1 << 15), rng.randrange(0, 1 << 16), rng.choice([0, 0x40, 0x80])
+            eof = rng.random() < 0.4
+            b = packets.make_ok(caps, ServerStatus(st), eof=eof, affected_rows=a, last_insert_id=l, warnings=w, flags=fl)
+            lines.append("rep ok %d %d %d %d %d %d %d" % (p41, trans, eof, a, l, st | fl, w))
+        elif k == "eof":
+            st, w, fl = rng.randrange(0, 1 << 15), rng.randrange(0, 1 << 16), rng.choice([0, 0x40, 0x80])
+            b = packets.make_eof(caps, ServerStatus(st), warnings=w, flags=fl)
+            lines.append("rep eof %d %d %d" % (p41, w, st | fl))
+        elif k == "err":
+            code = rng.choice(codes)
+            msg = "".join(rng.choice("abc é☃'\\%") for _ in range(rng.randrange(0, 12)))
+            b = packets.make_error(caps, CharacterSet.utf8mb4, msg=msg, code=code)
+            lines.append("rep err %d %d %s %s" % (p41, int(code), hexs(get_sqlstate(code)), hexs(msg.encode())))
+        else:
+            def nm():
+                return "".join(rng.choice("abcxyz_é☃ ") for _ in range(rng.choice([0, 1, 3, 8, 250, 251, 300]) if rng.random() < 0.2 else rng.randrange(0, 9)))
+            sc, tb, ot, name, on = nm(), nm(), nm(), nm(), nm()
+            cs = rng.choice(list(CharacterSet))
+            ln, ty = rng.choice([0, 1, 255, 256, 65535, 2 ** 32 - 1]), rng.choice(list(ColumnType))
+            fg, dc = rng.randrange(0, 1 << 16), rng.randrange(0, 256)
+            fl = k == "coldef-fl"
+            df = rng.choice([None, None, "", "x", "NULL", "0", "a" * 300]) if fl else None
+            b = packets.make_column_definition_41(CharacterSet.utf8mb4, schema=sc, table=tb, org_table=ot, name=name, org_name=on, character_set=cs,
+                                                  column_length=ln, column_type=ty, flags=ColumnDefinition(fg), decimals=dc, is_com_field_list=fl, default=df)
+            # the function's own defaulting of empty names: org_table := table, org_name := name
+            ot2, on2 = (ot or tb), (on or name)
+            dtok = "x" if not fl else ("N" if df is None else hexs(df.encode()) if df != "" else "N")
+            lines.append("rep coldef %s %s %s %s %s %d %d %d %d %d %s" % (hexs(sc.encode()), hexs(tb.encode()), hexs(ot2.encode()), hexs(name.encode()),
+                                                                       hexs(on2.encode()), int(cs), ln, int(ty), fg, dc, dtok))
+            # oracle: a standard client's strict decoder must accept the packet and read the fields back
+            try:
+                from lib import parse_coldef, Bad
+                cd = parse_coldef(b, field_list=fl)
+                back = (cd["schema"], cd["table"], cd["org_table"], cd["name"], cd["org_name"], cd["charset"], cd["length"], cd["type"], cd["flags"], cd["decimals"])
+                want = (sc.encode(), tb.encode(), ot2.encode(), name.encode(), on2.encode(), int(cs), ln, int(ty), fg, dc)
+                if back != want or (fl and (cd["default"] or None) != ((df or "").encode() or None)):
+                    chk.fail("column definition does not decode to the fields that were sent", dict(line=lines[-1]), dict(got=repr(back)[:300], default=repr(cd["default"])))
+            except Bad as e:
+                chk.fail("column definition packet not decodable by a standard client", dict(line=lines[-1], packet=hexs(b)[:400]), str(e))
+            b = (b, "roundtrip")
+        impl.append(hexs(b) if isinstance(b, bytes) else hexs(b[0]) + " " + b[1])
+        inputs.append(lines[-1])
+        chk.count("reply:" + k)
+        chk.case(("reply", lines[-1]))
+    out = drive(lines)
+    chk.compare("reply packets (OK / EOF / ERR / column definition) = Mimic.Reply, and decodable by the specification decoder", inputs, out, impl)
+
+
 def main():
     chk = Check("C03", sys.argv[1:])
     chk.rule = ("random command programs (1-12 commands over QUERY, PING, RESET_CONNECTION, DEBUG, INIT_DB, FIELD_LIST, STMT_PREPARE / "
@@ -249,6 +318,7 @@ def main():
             await run_program(chk, rng, lines, impl, big=True)
 
     asyncio.run(go())
+    reply_packets(chk, rng, 400 if not chk.thorough else 6000)
     model = [canon(x) for x in drive(lines)]
     chk.compare("Connection (command phase) vs Mimic.Conn + Mimic.Script", lines, model, [canon(x) for x in impl])
     chk.finish()
